@@ -92,7 +92,7 @@ def generated_docs(scratch, n, seed):
     return paths
 
 
-def synth_segments(rng, msg_sizes_per_segment, base_id):
+def synth_segments(rng, msg_sizes_per_segment, base_id, noise=False):
     """real segments: real ArchiveInfo headers and real messages padded with an unknown field to the requested size"""
     from numbers_parser.generated import TSTArchives_pb2 as TST
     from numbers_parser.generated.mapping import NAME_ID_MAP
@@ -115,7 +115,8 @@ def synth_segments(rng, msg_sizes_per_segment, base_id):
                     body_len += 1
                 while 2 + len(iwa.varint(body_len)) + body_len > pad:
                     body_len -= 1
-                raw += b"\xc2\x3e" + iwa.varint(body_len) + bytes(rng.getrandbits(8) for _ in range(min(body_len, 64))) * 1 + bytes(max(0, body_len - 64))
+                # noise: incompressible padding, so that a compressed chunk is as long as its data (a reader meets payloads >= 64 KiB)
+                raw += b"\xc2\x3e" + iwa.varint(body_len) + (rng.randbytes(body_len) if noise else bytes(rng.getrandbits(8) for _ in range(min(body_len, 64))) + bytes(max(0, body_len - 64)))
             mi = info.message_infos.add(type=tid, length=len(raw))
             mi.version.extend([1, 0, 5])
             msgs.append(raw)
@@ -205,7 +206,7 @@ def run(ctx):
     res = ctx.tlc("IWAFrame", cfg(4, 2, 2, 2), what="MC_IWAFrame[CHUNK=4, <=2 segs x <=2 msgs, all re-chunkings]", timeout=3000)
     if res.violated:
         raise Machinery("IWAFrame.tla violates %s" % res.violated)
-    for bug, inv in (("StaleLength", "RoundTrip"), ("LenField2Bytes", "ChunkRules"), ("Boundary", "ChunkRules")):
+    for bug, inv in (("StaleLength", "RoundTrip"), ("LenField2Bytes", True), ("Boundary", "ChunkRules"), ("DecLen2Bytes", True)):
         ctx.tlc("IWAFrame", cfg(4, 1, 2, 2, bug=bug), what="Bug_%s" % bug, expect_violation=inv, count=False)
     # ---- spec -> code: synthetic archives, framed by the harness at TLC's cuts, decoded by the library
     ctx.stage("synthetic")
@@ -241,9 +242,14 @@ def run(ctx):
             sz = exact(total, nseg)
             if sz is not None:
                 shapes.append(sz)
+    # incompressible streams (marked by a leading "noise"): their compressed chunks are as long as the data they hold
+    shapes += [["noise", [150000]], ["noise", [70000], [70000]], ["noise", [65536 + 40]]]
     ncase = 0
     for shp in shapes:
-        stream, segs = synth_segments(rng, shp, 5000)
+        noise = bool(shp) and shp[0] == "noise"
+        if noise:
+            shp = shp[1:]
+        stream, segs = synth_segments(rng, shp, 5000, noise=noise)
         want = [iwa.seg_digest(h, m) for h, m in segs]
         T = len(stream)
         cutsets = [[min(CH, T - i) for i in range(0, T, CH)]] if T else [[]]
@@ -260,8 +266,10 @@ def run(ctx):
             pts = sorted(set(pts))
             sizes = [b - a for a, b in zip([0] + pts, pts + [T])]
             fixed = []
-            for s in sizes:
-                while s > CH:
+            for s, part in zip(sizes, comp):
+                # a piece that is larger than CHUNK in the model stays in one piece (readers accept chunks beyond 64 KiB: the length
+                # field has three bytes); the others are cut down to what a writer may emit
+                while s > CH and part <= 4:
                     fixed.append(CH)
                     s -= CH
                 if s:
@@ -269,8 +277,11 @@ def run(ctx):
             cutsets.append(fixed)
         if T:
             cutsets.append([1] * min(T, 50) + ([T - 50] if T > 50 and T - 50 <= CH else [min(CH, T - 50 - i) for i in range(0, max(0, T - 50), CH)] if T > 50 else []))
+        if CH < T < 2 ** 24:
+            cutsets.append([T])                       # the whole stream as one chunk
+            cutsets.append([T - CH // 2, CH // 2])
         for cuts in cutsets:
-            if sum(cuts) != T or any(c > CH or c <= 0 for c in cuts):
+            if sum(cuts) != T or any(c >= 2 ** 24 or c <= 0 for c in cuts):
                 continue
             for stored_mode in (0, 1, 2):
                 stored = set() if stored_mode == 0 else (set(range(len(cuts))) if stored_mode == 1 else {k for k in range(len(cuts)) if rng.random() < 0.5})
